@@ -18,7 +18,7 @@ mkdir -p tests
 cp "$demo" tests/demo.rs
 base=$(cargo test --offline --test demo 2>&1 | grep -E "^test result" | head -1)
 if ! git apply "$patch" 2>/dev/null && ! git apply --3way "$patch" 2>/dev/null; then echo "$id $(basename $patch): PATCH-DOES-NOT-APPLY"; rm -f tests/demo.rs; exit 3; fi
-withp=$(cargo test --offline --test demo 2>&1 | grep -E "^test result|error(\[|:)" | head -1)
+withp=$(cargo test --offline --test demo 2>&1 | grep -E "^test result|^error(\[|:)" | head -1)
 rm -f tests/demo.rs
 suite=$(cargo test --workspace --no-fail-fast --offline 2>&1 | grep -E "^test result" | head -1)
 out="$(/verif/tools/with_repo.sh "$wt" "$id" "$tier" 2>/dev/null)"
